@@ -260,7 +260,9 @@ class ExecGen:
                              (1, "semi"), (1, "wherec"), (1, "doc")]) if depth < 2 else "simple"
             self.forms.add(k)
             if k == "doc":
-                # a documentation comment among the executable statements: text, not code (the marker may be configured)
+                # a documentation comment among the executable statements: text, not code (the marker may be configured);
+                # it follows an executable statement (after the last declaration it would document that one)
+                out.append(self.simple())
                 out.append({"text": "!" + getattr(self.s, "docmark", "!") + " formerly: call zz_doc_name(1); zz_doc_fun(2)",
                             "nobreak": True})
                 out.append(self.simple())
